@@ -285,7 +285,7 @@ def template_cond(draw, ctx: Ctx, force=None):
     n = ctx.nvars
     T = ["free", "free", "free"]
     if n >= 2:
-        T += ["and_right_diffvar_or", "and_two_ors", "or_overlap", "subset_only", "and_independent", "filter_then_join", "and_right_nested_cross"]
+        T += ["and_right_diffvar_or", "and_two_ors", "or_overlap", "subset_only", "and_independent", "filter_then_join", "and_right_nested_cross", "and_left_or_then_other"]
     if n >= 3:
         T += ["indep_and_or3", "indep_and_or3", "indep_and_join3"]
     T += ["same_var_or", "not_over_and", "not_over_or", "and_of_ors_samevar"] if cfg.allow_not else \
@@ -315,6 +315,13 @@ def template_cond(draw, ctx: Ctx, force=None):
         if chance(draw, 1, 4):
             parts.reverse()
         return ["and", f(), parts]
+    if t == "and_left_or_then_other":
+        # (s(x) | j(x, y)) & c(y): the disjunction on the LEFT passes several bindings of y for one x to a condition on y
+        x, y = (draw(st.permutations(list(range(n)))))[:2]
+        o = ["or", f(), [leaf(draw, ctx, [x]), leaf(draw, ctx, [x, y])]]
+        if chance(draw, 1, 3):
+            o[2].reverse()
+        return ["and", f(), [o, leaf(draw, ctx, [y])]]
     if t == "and_right_nested_cross":
         # c(x) & (a(y) & b(x)): the inner conjunction is entered with x bound, its LEFT operand is over another variable
         x, y = (draw(st.permutations(list(range(n)))))[:2]
